@@ -70,6 +70,9 @@ var aSetupMu sync.Mutex
 // aSilenceStdout points os.Stdout (which the per-connection loggers are created from at call time)
 // to /dev/null so thousands of cases do not flood the test log. Returns a restore function.
 func aSilenceStdout() func() {
+	if os.Getenv("VERIF_NOSILENCE") != "" {
+		return func() {}
+	}
 	old := os.Stdout
 	f, err := os.OpenFile(os.DevNull, os.O_WRONLY, 0)
 	if err != nil {
@@ -385,3 +388,58 @@ func (e *aEnv) aRunHandler(conn net.Conn, phantom net.IP, limit time.Duration) (
 		return false, nil, time.Since(start)
 	}
 }
+
+// obfs4 handshake capture --------------------------------------------------------------------------
+
+type aHsCapture struct {
+	aCapture
+	reading chan struct{}
+	once    sync.Once
+}
+
+func (c *aHsCapture) Read([]byte) (int, error) {
+	// the obfs4 client writes its whole handshake and then reads the server's answer
+	c.once.Do(func() { close(c.reading) })
+	return 0, io.EOF
+}
+
+// aObfs4Handshake returns the client handshake bytes the real obfs4 client transport sends for secret.
+func (e *aEnv) aObfs4Handshake(secret []byte) ([]byte, error) {
+	keys, err := core.GenSharedKeys(uint(core.CurrentClientLibraryVersion()), secret, pb.TransportType_Obfs4)
+	if err != nil {
+		return nil, err
+	}
+	ct := &obfs4.ClientTransport{}
+	if err := ct.PrepareKeys(e.pub, secret, keys.TransportReader); err != nil {
+		return nil, err
+	}
+	cc := &aHsCapture{reading: make(chan struct{})}
+	done := make(chan struct{})
+	go func() {
+		defer close(done)
+		_, _ = ct.WrapConn(cc) // fails with EOF once the handshake has been written
+	}()
+	select {
+	case <-done:
+	case <-time.After(10 * time.Second):
+		return nil, fmt.Errorf("obfs4 client did not finish writing its handshake")
+	}
+	hs := aJoin(cc.writes)
+	if len(hs) < 64 {
+		return nil, fmt.Errorf("captured only %d handshake bytes", len(hs))
+	}
+	return hs, nil
+}
+
+// aPayload returns n deterministic pseudo-random bytes selected by (label, key).
+func aPayload(key, n int, label string) []byte {
+	out := make([]byte, 0, n+32)
+	seed := []byte(fmt.Sprintf("verif-%s-%d", label, key))
+	for ctr := 0; len(out) < n; ctr++ {
+		out = append(out, core.ConjureHMAC(seed, fmt.Sprintf("%d", ctr))...)
+	}
+	return out[:n]
+}
+
+// aLens are stream lengths around every threshold the classification code has.
+var aLens = []int{0, 1, 5, 31, 32, 33, 63, 64, 65, 69, 70, 71, 78, 79, 80, 81, 84, 85, 86, 100, 1000, 4095, 4096, 4097, 8191, 8192, 8193, 12000, 16384}
